@@ -116,10 +116,10 @@ def source(quick, variants, H, select0=True):
         out.append(PRIVATE.format(CLOUD=cloud, NMT=len(H.machine_types(cloud)), SMAX=SMAX))
         names.append(('private', f'private_{cloud}', dict(cloud=cloud)))
     text = '\n'.join(out)
-    # search-mode twins of every pool/select condition (prefix T_): same body with the tight mdiv model switched on
+    # search-mode twins of every pool/select condition (prefix T_): same body with the cut helpers in SEARCH mode
     import re
     extra = []
     for m in re.finditer(r"\ndef ((?:pool|select)\w*)\((.*?)\) -> bool:\n(    \"\"\".*?\"\"\"\n)(    return [^\n]*\n)", text, re.S):
         fn, args, doc, ret = m.groups()
-        extra.append(f"\ndef T_{fn}({args}) -> bool:\n{doc}    H.LIMITS.mdiv_tight = True\n{ret}")
+        extra.append(f"\ndef T_{fn}({args}) -> bool:\n{doc}    H.LIMITS.search = True\n{ret}")
     return text + '\n' + '\n'.join(extra), names
